@@ -113,6 +113,40 @@ def check(model, rep):
                '_IKHelper %s: IK hands its caller the live self.lengths; when the pose needs a corrective action (legs outside their limits) the '
                'in-place adjustments change the returned array too, so IK no longer returns the joint distances of the requested poses' % why_, line=r_.lineno)
     rep.floor('R09.6', 'return statements of _IKHelper', len(rets_h), 1)
+
+    # ---------------------------------------------------------------- R09.7
+    # the IK kernel fills the space-joint buffers it is handed IN PLACE; the plate-fixed joint tables (and the FK tables, views of them) are
+    # read by every solve.  If one array object is bound to both kinds of field, every later IK rewrites the plate-fixed joints.
+    rep.rule('R09.7', 'no array object is bound both to a plate-fixed joint table (_*_joints_local / _*_joints_init) and to a space-joint buffer '
+                      '(_*_joints_space) that the IK kernel writes in place')
+    FIXED = ('_bottom_joints_local', '_top_joints_local', '_bottom_joints_init', '_top_joints_init')
+    BUFFERS = ('_bottom_joints_space', '_top_joints_space')
+    n_bind = 0
+    for name_, fi_ in sorted(sp.methods.items()):
+        bound = {}
+        for n_ in walk_own(fi_.node):
+            if isinstance(n_, ast.Assign):
+                for t_ in n_.targets:
+                    if isinstance(t_, ast.Attribute) and isinstance(t_.value, ast.Name) and t_.value.id == 'self' and t_.attr in FIXED + BUFFERS:
+                        v_ = n_.value
+                        key = None
+                        if isinstance(v_, ast.Name):
+                            key = v_.id                       # the same local object
+                        elif isinstance(v_, ast.Attribute) and isinstance(v_.value, ast.Name) and v_.value.id == 'self' and v_.attr in FIXED + BUFFERS:
+                            key = 'self.' + v_.attr           # another field's object, uncopied
+                            bound.setdefault(key, []).append((v_.attr, n_.lineno))
+                        if key is not None:
+                            bound.setdefault(key, []).append((t_.attr, n_.lineno))
+        for key, fields in sorted(bound.items()):
+            kinds = {('fixed' if f_ in FIXED else 'buffer') for f_, _l in fields}
+            n_bind += 1
+            rep.ob('R09.7', fi_, '%s: object `%s` bound to %s' % (name_, key, sorted({f_ for f_, _l in fields})), kinds != {'fixed', 'buffer'},
+                   'the array `%s` is stored both as %s and as %s without a copy: SPIKinSpace writes the space joints into that buffer in place, so every later '
+                   'IK with a bottom pose other than the identity overwrites the plate-fixed joint coordinates (leg lengths then depend on the absolute pose '
+                   'and on how many solves were made)' % (key, sorted(f_ for f_, _l in fields if f_ in FIXED), sorted(f_ for f_, _l in fields if f_ in BUFFERS)),
+                   line=fields[-1][1])
+    rep.count('R09.7 objects bound to joint tables / buffers', n_bind)
+    rep.floor('R09.7', 'objects bound to joint tables / buffers', n_bind, 2)
     # ---------------------------------------------------------------- R09.2
     rep.rule('R09.2', 'FK joint tables re-derived after every replacement of the plate-fixed joint coordinates (all paths, all public methods)')
     from ..engine import peval as _pe
